@@ -5,7 +5,7 @@ cd /repo || exit 3
 git diff --quiet || { echo "/repo has local changes"; exit 3; }
 git apply "$patch" || { echo "patch does not apply"; exit 3; }
 for p in "$@"; do
-  out=$(cd /verif && ./check $p 2>&1); rc=$?
+  out=$(cd /verif && VERIF_OUT_DIR=/var/tmp/mutant-out ./check $p 2>&1); rc=$?
   echo "== $p rc=$rc"; echo "$out" | grep -E "VIOLATION|KNOWN-FINDING|violation class|quick:|harness error|failed" | cut -c1-400 | head -12
 done
 git -C /repo checkout -- .
